@@ -133,6 +133,23 @@ def r19_4_5(ctx) -> None:
     okj = has_loads and has_dec and all(_resolve_local(eng, jd, s.node.args[0]).startswith("urlsafe_b64decode(") for s in loads)
     ctx.check(okj, "R19.5", jd, jd.node, jd.short, "json_b64decode is not json.loads applied to the strict base64url decoding", "json.loads(urlsafe_b64decode(to_bytes(text, 'ascii')))",
               construct="json_b64decode")
+    # "JSON header encoding followed by decoding returns an equal object": every header decoder is json_b64decode, and its json.loads has no
+    # object_hook / object_pairs_hook / parse_* argument (a hook sees nested objects too and changes or refuses what is a valid header)
+    n_loads = 0
+    for fn in P.all_functions():
+        for s_ in eng.cg.calls_in(fn):
+            if isinstance(s_.node, ast.Call) and any(x == "json.loads" for x in s_.ext) and fn.module.short in ("util", "rfc7515.compact", "rfc7515.json", "rfc7516.compact", "rfc7516.json",
+                                                                                                             "rfc7797.compact", "rfc7797.json"):
+                n_loads += 1
+                extra = sorted(k.arg or "**" for k in s_.node.keywords)
+                ctx.check(not extra and len(s_.node.args) == 1, "R19.5", fn, s_.node, f"{fn.short} :: {norm(s_.node)[:50]}", f"a header / token JSON decoder calls json.loads with {extra}: "
+                          "decoding no longer returns the object that was encoded", "json.loads(data)", construct=f"json.loads hooks in {fn.short}")
+    ctx.count("R19.5/loads", n_loads, 1, "json.loads calls in the codec and serialization modules")
+    # who may parse JSON: header decoding has one implementation - apart from json_b64decode only the JWT claims decoder calls json.loads
+    callers = sorted({fn.short for fn in P.all_functions() for s_ in eng.cg.calls_in(fn) if any(x in ("json.loads", "json.load", "json.JSONDecoder.decode") for x in s_.ext)})
+    allowed = {"util:json_b64decode", "jwt:decode"}
+    ctx.check(set(callers) <= allowed and "util:json_b64decode" in callers, "R19.5", None, None, "json.loads callers", f"JSON is parsed outside the one header decoder: {sorted(set(callers) - allowed)}",
+              f"only {sorted(allowed)}", construct=f"JSON parsed in {sorted(set(callers) - allowed)}")
     je = P.func("util:json_b64encode")
     dumps = [n for n in fn_nodes(je) if isinstance(n, ast.Call) and norm(n.func) == "json.dumps"]
     oke = len(dumps) == 1
